@@ -51,16 +51,29 @@ def outOf (kvs : Dict) : Option Val := (dictGet? kvs (.str "out")).filter Val.tr
 def raiseErrorOf (kvs : Dict) : Bool :=
   match dictGet? kvs (.str "raiseError") with | some v => v.truthy | none => true
 
-def groupsOf (kvs : Dict) : Option (List String) :=
+/-- `groups = pype.get('groups'); if isinstance(groups, str): groups = [groups]` as `Pipeline(groups=…)`
+    takes it: the list of names (a mapping: its keys) and whether it is a truthy value that cannot be
+    iterated (`groups: 5`). -/
+def groupsOf (kvs : Dict) : Except (String × String) (Option (List String) × Bool) :=
   match dictGet? kvs (.str "groups") with
-  | some (.str g) => some [g]
-  | some v => strList? v
-  | none => none
+  | none | some .none => .ok (none, false)
+  | some (.str g) => .ok (some [g], false)
+  | some (.list xs) | some (.tuple xs) => match strList? (.list xs) with
+    | some gs => .ok (some gs, false)
+    | none => .error ("OutOfDomain", "group names must be strings")
+  | some (.dict gkvs) => match strList? (.list (gkvs.map (·.1))) with
+    | some gs => .ok (some gs, false)
+    | none => .error ("OutOfDomain", "group names must be strings")
+  | some (.int i) => .ok (none, i != 0)
+  | some (.bool b) => .ok (none, b)
+  | some (.flt n _) => .ok (none, n != 0)
+  | some _ => .error ("OutOfDomain", "pype groups outside the modelled shapes")
 
-def optStrOf (kvs : Dict) (k : String) : Option String :=
+def optStrOf (kvs : Dict) (k : String) : Except (String × String) (Option String) :=
   match dictGet? kvs (.str k) with
-  | some (.str t) => some t
-  | _ => none
+  | some (.str t) => .ok (some t)
+  | none | some .none => .ok none
+  | some _ => .error ("OutOfDomain", "pype success/failure must be a string")
 
 def outWithParentError : String × String :=
   ("pypyr.errors.ContextError", "~pypyr.steps.pype pype.out is only relevant if useParentContext = False.")
@@ -75,9 +88,13 @@ def pypeArgsOfDict (kvs : Dict) : Except (String × String) PypeArgs :=
     | .error e => .error e
     | .ok args =>
       if (outOf kvs).isSome && useParentOf kvs args then .error outWithParentError
-      else .ok { name, args, out := outOf kvs, useParent := useParentOf kvs args, pipeArg := pipeArgOf kvs,
-                 skipParse := skipParseOf kvs, raiseError := raiseErrorOf kvs, groups := groupsOf kvs,
-                 success := optStrOf kvs "success", failure := optStrOf kvs "failure" }
+      else
+        match groupsOf kvs, optStrOf kvs "success", optStrOf kvs "failure" with
+        | .error e, _, _ | _, .error e, _ | _, _, .error e => .error e
+        | .ok (groups, groupsBad), .ok success, .ok failure =>
+          .ok { name, args, out := outOf kvs, useParent := useParentOf kvs args, pipeArg := pipeArgOf kvs,
+                skipParse := skipParseOf kvs, raiseError := raiseErrorOf kvs, groups, groupsBad,
+                success, failure }
   | some _ => .error ("OutOfDomain", "pype name must be a string")
 
 /-- **`getPypeArgs` = assert, format, `pypeArgsOfDict`.** -/
@@ -132,8 +149,8 @@ theorem pypeArgsOfDict_ok (kvs : Dict) (a : PypeArgs) (h : pypeArgsOfDict kvs = 
     dictGet? kvs (.str "name") = some (.str a.name) ∧
     argsOf kvs = .ok a.args ∧
     a.out = outOf kvs ∧ a.useParent = useParentOf kvs a.args ∧ a.pipeArg = pipeArgOf kvs ∧
-    a.skipParse = skipParseOf kvs ∧ a.raiseError = raiseErrorOf kvs ∧ a.groups = groupsOf kvs ∧
-    a.success = optStrOf kvs "success" ∧ a.failure = optStrOf kvs "failure" ∧
+    a.skipParse = skipParseOf kvs ∧ a.raiseError = raiseErrorOf kvs ∧ groupsOf kvs = .ok (a.groups, a.groupsBad) ∧
+    optStrOf kvs "success" = .ok a.success ∧ optStrOf kvs "failure" = .ok a.failure ∧
     ((outOf kvs).isSome && useParentOf kvs a.args) = false := by
   unfold pypeArgsOfDict at h
   split at h
@@ -146,9 +163,14 @@ theorem pypeArgsOfDict_ok (kvs : Dict) (a : PypeArgs) (h : pypeArgsOfDict kvs = 
       split at h
       · cases h
       · rename_i hno
-        injection h with h
-        subst h
-        exact ⟨hname, hargs, rfl, rfl, rfl, rfl, rfl, rfl, rfl, rfl, by simpa using hno⟩
+        split at h
+        · cases h
+        · cases h
+        · cases h
+        · rename_i groups groupsBad success failure hg hs hf
+          injection h with h
+          subst h
+          exact ⟨hname, hargs, rfl, rfl, rfl, rfl, rfl, hg, hs, hf, by simpa using hno⟩
   · cases h
 
 /-- `out` given together with the parent context is rejected -/
@@ -209,13 +231,20 @@ theorem raiseErrorOf_explicit (kvs : Dict) (v : Val) (h : dictGet? kvs (.str "ra
     raiseErrorOf kvs = v.truthy := by simp [raiseErrorOf, h]
 
 theorem groupsOf_str (kvs : Dict) (g : String) (h : dictGet? kvs (.str "groups") = some (.str g)) :
-    groupsOf kvs = some [g] := by simp [groupsOf, h]
+    groupsOf kvs = .ok (some [g], false) := by simp [groupsOf, h]
 
-theorem groupsOf_list (kvs : Dict) (xs : List Val) (h : dictGet? kvs (.str "groups") = some (.list xs)) :
-    groupsOf kvs = strList? (.list xs) := by simp [groupsOf, h]
+theorem groupsOf_list (kvs : Dict) (xs : List Val) (gs : List String)
+    (h : dictGet? kvs (.str "groups") = some (.list xs)) (hs : strList? (.list xs) = some gs) :
+    groupsOf kvs = .ok (some gs, false) := by simp [groupsOf, h, hs]
 
 theorem groupsOf_none (kvs : Dict) (h : dictGet? kvs (.str "groups") = none) :
-    groupsOf kvs = none := by simp [groupsOf, h]
+    groupsOf kvs = .ok (none, false) := by simp [groupsOf, h]
+
+/-- a number / bool under `groups`: falsy means "not given", truthy "given but not iterable". -/
+theorem groupsOf_number (kvs : Dict) :
+    (∀ i, dictGet? kvs (.str "groups") = some (.int i) → groupsOf kvs = .ok (none, i != 0)) ∧
+    (∀ b, dictGet? kvs (.str "groups") = some (.bool b) → groupsOf kvs = .ok (none, b)) :=
+  ⟨fun i h => by simp [groupsOf, h], fun b h => by simp [groupsOf, h]⟩
 
 theorem strList?_strs (gs : List String) : strList? (.list (gs.map Val.str)) = some gs := by
   simp [strList?, List.filterMap_map, Function.comp_def]
